@@ -33,6 +33,10 @@ pub enum Intent {
     /// an operation on a task that exists nowhere (as a stale TaskData handle can produce): it is
     /// invalid, must be ignored by everybody and must not disturb anything else
     Ghost { del: bool, ts: i64 },
+    /// an import that lists a task twice: the task (one of two that nothing ever deletes, so the
+    /// redundant Create stays redundant on every replica) is created if need be, updated, and then
+    /// "created" again; the second Create must be ignored by everybody and disturb nothing
+    Recreate { t: u8, p: u8, ts: i64 },
     /// set (or remove) an arbitrary key to an explicit value through the TaskData API
     /// (status, modified, dep_…, tag_… for C15/C19/C20); not tracked by the conservation oracle
     Key { t: u8, key: String, val: Option<String>, ts: i64 },
@@ -293,7 +297,7 @@ pub(crate) async fn build_ops(n: usize, a: usize, replica: &mut Replica<SimStora
                 }
                 continue;
             }
-            Intent::Create { t } | Intent::Delete { t } | Intent::Set { t, .. } | Intent::Remove { t, .. } | Intent::Key { t, .. } | Intent::SetHuge { t, .. } => *t,
+            Intent::Create { t } | Intent::Recreate { t, .. } | Intent::Delete { t } | Intent::Set { t, .. } | Intent::Remove { t, .. } | Intent::Key { t, .. } | Intent::SetHuge { t, .. } => *t,
         };
         if !view.contains_key(&t) {
             match replica.get_task_data(task_uuid(t)).await {
@@ -309,6 +313,14 @@ pub(crate) async fn build_ops(n: usize, a: usize, replica: &mut Replica<SimStora
                 if slot.is_none() {
                     *slot = Some(TaskData::create(task_uuid(t), &mut ops));
                 }
+            }
+            Intent::Recreate { p, ts, .. } => {
+                if slot.is_none() {
+                    *slot = Some(TaskData::create(task_uuid(t), &mut ops));
+                }
+                interpose::set_now_ns(ts_ns(*ts));
+                slot.as_mut().unwrap().update(prop_name_s(*p, style), Some(value_for(n, a, i, false, style)), &mut ops);
+                ops.push(Operation::Create { uuid: task_uuid(t) });
             }
             Intent::Delete { .. } => {
                 if let Some(mut td) = slot.take() {
@@ -749,7 +761,7 @@ fn do_foreign(n: usize, a: usize, w: &Rc<RefCell<World>>, intents: &[Intent], fm
                     parts.push(format!("{{\"Update\":{}{{{}}}{}}}", ws(&mut rng), fields.join(&format!(",{}", ws(&mut rng))), ws(&mut rng)));
                 }
             }
-            Intent::UndoPoint | Intent::Bulk { .. } | Intent::Key { .. } | Intent::SetHuge { .. } | Intent::Ghost { .. } => {}
+            Intent::UndoPoint | Intent::Bulk { .. } | Intent::Key { .. } | Intent::SetHuge { .. } | Intent::Ghost { .. } | Intent::Recreate { .. } => {}
         }
     }
     if parts.is_empty() {
@@ -995,6 +1007,16 @@ async fn do_expire(n: usize, a: usize, w: &Rc<RefCell<World>>, replica: &mut Rep
         Err(e) => {
             if !faulted {
                 wb.violation("expire", "error", format!("node {n} action {a}: expire_tasks failed: {e}"));
+            }
+            // a commit that took effect although it reported an error: the deletions are in the
+            // store and belong in the ledger like any committed operation
+            let new_ops = &after.unsynced[before.unsynced.len().min(after.unsynced.len())..];
+            let base_len = wb.server.borrow().chain.index_of(before.base_version).map(|i| i + 1).unwrap_or(0);
+            for o in new_ops {
+                if let Operation::Delete { uuid, .. } = o {
+                    wb.expired.insert(*uuid);
+                    wb.ledger[n].push(LedgerOp { action: a, sop: SOp::Delete { uuid: *uuid }, status: LStatus::Committed, base_len, undone_when: 0 });
+                }
             }
         }
     }
@@ -1888,7 +1910,13 @@ fn gen_raw(rng: &mut Rng, tasks: u8, props: u8, tag: &str) -> Vec<RawOp> {
             RawOp::Delete { t, old }
         } else if x < 90 {
             let val = if rng.chance(1, 5) { None } else { Some(format!("r{tag}.{i}")) };
-            let old = if rng.chance(1, 2) { None } else { Some(format!("o{i}")) };
+            // the recorded previous value is undo bookkeeping only: absent, something else, or
+            // (as a stale handle records when it sets a property back) equal to the new value
+            let old = match rng.below(6) {
+                0..=2 => None,
+                3..=4 => Some(format!("o{i}")),
+                _ => val.clone(),
+            };
             RawOp::Update { t, p, old, val, ts: rng.range(-3, 3) }
         } else {
             RawOp::UndoPoint
@@ -2032,6 +2060,29 @@ pub fn gen_c07(seed: u64, i: u64, thorough: bool) -> Value {
             }
         }
         scripts.push(sc);
+    }
+    // in a quarter of the runs a long-deleted task is purged by expiration (recorded as an
+    // ordinary deletion) and the purge is undone like any other change
+    if rng.chance(1, 4) {
+        let n = rng.usize_below(nodes);
+        let t = rng.below(g.tasks as u64) as u8;
+        let mut ops = vec![Intent::Create { t }, Intent::Key { t, key: "status".into(), val: Some("deleted".into()), ts: 0 }, Intent::Key { t, key: "modified".into(), val: Some(crate::interpose::EPOCH0.to_string()), ts: 0 }];
+        for p in 0..g.props {
+            ops.push(Intent::Set { t, p, ts: gen_ts(&mut rng, &mut g), big: false });
+        }
+        let at = rng.usize_below(scripts[n].len() + 1);
+        let mut ins = vec![Action::Commit { ops }];
+        if rng.chance(1, 2) {
+            ins.push(Action::Sync { avoid: true });
+        }
+        if rng.chance(1, 2) {
+            ins.push(Action::Commit { ops: vec![Intent::UndoPoint, Intent::Set { t: (t + 1) % g.tasks, p: 0, ts: gen_ts(&mut rng, &mut g), big: false }] });
+        }
+        ins.push(Action::Expire { at: 400 * DAY });
+        ins.push(Action::Undo);
+        for (k, x) in ins.into_iter().enumerate() {
+            scripts[n].insert(at + k, x);
+        }
     }
     let sc = Scenario {
         check: "C07".into(),
@@ -3143,7 +3194,14 @@ pub fn gen_c03(seed: u64, i: u64, _thorough: bool) -> Value {
                         }
                         b.push(Intent::Delete { t });
                     }
-                    11 => b.push(Intent::Ghost { del: rng.chance(1, 3), ts: rng.range(-3, 3) }),
+                    11 => {
+                        // (one per task slot, so that a batch updates a property at most once)
+                        if rng.chance(1, 2) && t < 2 {
+                            b.push(Intent::Recreate { t: 240 + t, p: rng.below(props as u64) as u8, ts: rng.range(-3, 3) })
+                        } else {
+                            b.push(Intent::Ghost { del: rng.chance(1, 3), ts: rng.range(-3, 3) })
+                        }
+                    }
                     _ => {
                         // create (a no-op when the task exists) then updates of distinct properties
                         if rng.chance(2, 3) {
@@ -3401,7 +3459,11 @@ fn gen_intents(rng: &mut Rng, g: &mut GenCfg, max: usize, allow_undo_point: bool
         v.push(if x < 25 {
             Intent::Create { t }
         } else if x < 27 && g.ghosts {
-            Intent::Ghost { del: rng.chance(1, 3), ts: gen_ts(rng, g) }
+            if rng.chance(1, 2) {
+                Intent::Recreate { t: 240 + rng.below(2) as u8, p, ts: gen_ts(rng, g) }
+            } else {
+                Intent::Ghost { del: rng.chance(1, 3), ts: gen_ts(rng, g) }
+            }
         } else if x < 31 {
             // an empty value (as tags and dependencies have), or one several tasks share
             Intent::Key { t, key: prop_name(p), val: Some(rng.pick(&["", "", "shared"]).to_string()), ts: gen_ts(rng, g) }
@@ -3498,6 +3560,28 @@ pub fn gen_c02(seed: u64, i: u64, thorough: bool) -> Value {
             }
         }
         scripts.push(sc);
+    }
+    // now and then one replica's pending changes exceed the batching threshold, so that its sync
+    // sends several versions while the others race it (a rejected first or middle batch)
+    if rng.chance(1, if thorough { 20 } else { 50 }) {
+        let n = rng.usize_below(nodes);
+        let t = rng.below(g.tasks as u64) as u8;
+        let mut ops = vec![Intent::Create { t }];
+        for _ in 0..3 + rng.usize_below(2) {
+            ops.push(Intent::Set { t, p: rng.below(g.props as u64) as u8, ts: gen_ts(&mut rng, &mut g), big: true });
+        }
+        ops.push(Intent::Set { t, p: rng.below(g.props as u64) as u8, ts: gen_ts(&mut rng, &mut g), big: false });
+        let at = rng.usize_below(scripts[n].len() + 1);
+        scripts[n].insert(at, Action::Sync { avoid: true });
+        scripts[n].insert(at, Action::Commit { ops });
+        for sc in scripts.iter_mut() {
+            sc.truncate(6);
+        }
+        for (m, sc) in scripts.iter_mut().enumerate() {
+            if m != n && !sc.iter().any(|a| matches!(a, Action::Sync { .. })) {
+                sc.push(Action::Sync { avoid: true });
+            }
+        }
     }
     let sc = Scenario {
         check: "C02".into(),
